@@ -43,7 +43,7 @@ def w_memcheck_hist(exe, pool, programs):
     data = ("\n".join(lines) + "\nQ\n").encode()
     cmd = ["valgrind", "--tool=memcheck", "-q", "--error-exitcode=68", "--track-origins=yes", "--leak-check=full",
            "--errors-for-leak-kinds=definite,indirect", exe]
-    p = subprocess.run(cmd, input=data, stdout=subprocess.PIPE, stderr=subprocess.PIPE, env=dict(os.environ, LC_ALL="C"), timeout=3000)
+    p = subprocess.run(cmd, input=data, stdout=subprocess.PIPE, stderr=subprocess.PIPE, env=dict(os.environ, LC_ALL="C", VERIF_POISON="none"), timeout=3000)
     err = p.stderr.decode("utf-8", "replace")
     part["counters"]["memcheck.histories"] += p.stdout.count(b'["end"')
     if p.returncode != 0:
